@@ -28,6 +28,7 @@ func main() {
 	out := flag.String("out", "", "scratch dir")
 	hooks := flag.String("hooks", "", "space separated hook tags to include")
 	rewrite := flag.String("rewrite", "", "comma separated rewrites: maporder,yield")
+	exclude := flag.String("exclude", "", "development only: property file prefixes (c07 c05 …) to leave out of the harness build")
 	flag.Parse()
 	if *out == "" {
 		fmt.Fprintln(os.Stderr, "need -out")
@@ -66,6 +67,12 @@ func main() {
 			continue
 		}
 		replace[filepath.Join(*repo, f.Dst)] = filepath.Join(*verif, "hooks", f.Src)
+	}
+	for _, ex := range strings.Fields(*exclude) {
+		ms, _ := filepath.Glob(filepath.Join(*verif, "internal", "props", ex+"*.go"))
+		for _, m := range ms {
+			replace[m] = ""
+		}
 	}
 	if *rewrite != "" {
 		if err := doRewrite(*repo, *out, strings.Split(*rewrite, ","), replace); err != nil {
